@@ -487,8 +487,11 @@ J_copy(e) ==
        IF p.k = "exc" THEN << <<"unexpected-exception", p.names>> >>
        ELSE V("type", p.same_type /\ p.k = x.k /\ p.cls = x.cls, x.cls)
             \o (CASE x.k = "dt" -> (IF p.k = "dt" THEN V("fields", ZRef(p.z) = ZRef(x.z) /\ p.w = x.w, x.w)
-                                                     \o V("instant-offset", SameDT(x, p), <<x.off, x.f>>) ELSE <<>>)
-                  [] x.k \in {"date", "time"} -> (IF p.k = x.k THEN V("fields", p.w = x.w, x.w) \o V("equal", p.eq, TRUE) ELSE <<>>)
+                                                     \o V("instant-offset", SameDT(x, p), <<x.off, x.f>>)
+                                                     \o V("zone-name", p.same_tzname, "tzname() and utcoffset() as before") ELSE <<>>)
+                  [] x.k \in {"date", "time"} -> (IF p.k = x.k THEN V("fields", p.w = x.w, x.w) \o V("equal", p.eq, TRUE)
+                                                     \o (IF x.k = "time" THEN V("zone-name", p.same_tzname, "tzname() and utcoffset() as before") ELSE <<>>)
+                                                 ELSE <<>>)
                   [] x.k = "dur" -> (IF p.k = "dur" THEN V("components", DurFields(p) = DurFields(x), DurFields(x))
                                                        \o V("equal", p.eq, TRUE) ELSE <<>>)
                   [] x.k = "iv" -> (IF p.k = "iv" THEN V("endpoints", SamePoint(x.a, p.a) /\ SamePoint(x.b, p.b), <<x.a.w, x.b.w>>)
@@ -814,6 +817,7 @@ J_native_acc(e) ==
           \o V("time()", p.time = <<"Time", <<w[4], w[5], w[6], w[7]>> >>, "Time")
           \o V("types", p.badtypes = <<>>, "methods returning date/time/datetime objects return the pendulum types")
           \o V("same-as-native", p.neq = <<>>, "every accessor equals the native object's")
+          \o V("x-derived-as-native", p.xneq = <<>>, "replace(tzinfo=...) and the class methods give the value the native class gives")
           \o (IF ClassOf(s) = "unique" THEN V("equals-native", p.eq_twin /\ p.hash_twin, "== and hash") ELSE <<>>))
   ELSE IF x.k = "date" THEN
      LET w == x.w  n == Ord(w[1], w[2], w[3]) IN
@@ -821,10 +825,13 @@ J_native_acc(e) ==
                    \o V("weekday", p.wd = Weekday(n) - 1, Weekday(n) - 1) \o V("isoweekday", p.iwd = Weekday(n), Weekday(n))
                    \o V("isocalendar", p.isocal = IsoCal(n), IsoCal(n))
                    \o V("types", p.badtypes = <<>>, "pendulum types") \o V("same-as-native", p.neq = <<>>, "native")
+                   \o V("x-derived-as-native", p.xneq = <<>>, "replace() and the class methods give the value the native class gives")
                    \o V("equals-native", p.eq_twin /\ p.hash_twin, "== and hash"))
-  ELSE R(<<"time">>, V("types", p.badtypes = <<>>, "pendulum types") \o V("same-as-native", p.neq = <<>>, "native")
-                     \o V("isoformat", p.iso = RenderHMS(<<0, 0, 0, x.w[1], x.w[2], x.w[3], x.w[4]>>) \o (IF x.w[4] # 0 THEN <<cDot>> \o Pad6(x.w[4]) ELSE <<>>),
-                           "HH:MM:SS[.ffffff]")
+  ELSE R(<<"time", B("z" \in DOMAIN x)>>, V("types", p.badtypes = <<>>, "pendulum types") \o V("same-as-native", p.neq = <<>>, "native")
+                     \o V("x-derived-as-native", p.xneq = <<>>, "replace() and fromisoformat give the value the native class gives")
+                     \o V("isoformat", p.iso = RenderHMS(<<0, 0, 0, x.w[1], x.w[2], x.w[3], x.w[4]>>) \o (IF x.w[4] # 0 THEN <<cDot>> \o Pad6(x.w[4]) ELSE <<>>)
+                                   \o (IF "z" \in DOMAIN x /\ x.z.n = "" THEN RenderOffset(x.z.fo) ELSE <<>>),
+                           "HH:MM:SS[.ffffff][+HH:MM[:SS]]")
                      \o V("equals-native", p.eq_twin /\ p.hash_twin, "== and hash"))
 J_native_cmp(e) ==
   LET a == Src(e)  bb == e.pre[2]  b == DT(bb.z, bb.w, bb.f)  p == e.post
